@@ -205,6 +205,35 @@ func genMWCase(t *rapid.T, g mwGenCfg) MWCase {
 			c.Steps = append(c.Steps, MWStep{Op: "vacuum", W: w, Cut: cut})
 		}
 	}
+	if g.wVacuum > 0 && rapid.Bool().Draw(t, "prefill") {
+		// a populated table from the start (one multi-row INSERT before everything else), so
+		// that trees have several nodes and consecutive versions share most of them
+		st := Stmt{Kind: "ins", Cols: []string{"a"}, T: -10}
+		for i, k := range intKeys(c.NKeys) {
+			st.Keys = append(st.Keys, k)
+			st.Vals = append(st.Vals, []Val{vInt(int64(i % 3))})
+		}
+		c.Steps = append([]MWStep{{Op: "stmt", W: 0, Stmts: []Stmt{st}}}, c.Steps...)
+	}
+	if g.wVacuum > 0 && c.NKeys >= 2 && rapid.IntRange(0, 2).Draw(t, "pattern2") == 0 {
+		// Targeted region: two rows deleted at different times and a cutoff between the two
+		// delete times (or equal to the later one): one marker must go, the other must stay
+		w := rapid.IntRange(0, c.NWriters-1).Draw(t, "p2w")
+		ks := intKeys(c.NKeys)
+		ia := rapid.IntRange(0, len(ks)-1).Draw(t, "p2a")
+		ib := (ia + 1 + rapid.IntRange(0, len(ks)-2).Draw(t, "p2b")) % len(ks)
+		t0, t1, t3 := int64(46*256+1), int64(47*256+2), int64(49*256+3)
+		cut := rapid.SampledFrom([]int64{t1 + 1, 48 * 256, t3, t3 - 1}).Draw(t, "p2cut")
+		pat := []MWStep{
+			{Op: "stmt", W: w, Stmts: []Stmt{{Kind: "ins", Keys: []Val{ks[ia]}, Cols: []string{"a"}, Vals: [][]Val{{vInt(1)}}, T: t0}}},
+			{Op: "stmt", W: w, Stmts: []Stmt{{Kind: "ins", Keys: []Val{ks[ib]}, Cols: []string{"b"}, Vals: [][]Val{{vInt(2)}}, T: t0 + 1}}},
+			{Op: "stmt", W: w, Stmts: []Stmt{{Kind: "del", Keys: []Val{ks[ia]}, T: t1}}},
+			{Op: "stmt", W: w, Stmts: []Stmt{{Kind: "del", Keys: []Val{ks[ib]}, T: t3}}},
+			{Op: "vacuum", W: w, Cut: cut},
+		}
+		pos := rapid.IntRange(0, len(c.Steps)).Draw(t, "p2pos")
+		c.Steps = append(append(append([]MWStep{}, c.Steps[:pos]...), pat...), c.Steps[pos:]...)
+	}
 	if g.wVacuum > 0 && rapid.IntRange(0, 2).Draw(t, "pattern") == 0 {
 		// Targeted region (uniform draws rarely reach it): a row whose delete time is older
 		// than its stored modification time (a later-stamped column write is kept with the
